@@ -247,8 +247,9 @@ def determinism_and_inputs(case, rec, fp, method):
 
 
 # ---------------------------------------------------------------- 4: schedules
-def run_child(threads, layer, chunk, dseed, loaded, kinds=KINDS):
+def run_child(threads, layer, chunk, dseed, loaded, kinds=KINDS, hashseed=0):
     env = child_env({"NUMBA_NUM_THREADS": threads, "NUMBA_THREADING_LAYER": layer, "OMP_NUM_THREADS": threads})
+    env["PYTHONHASHSEED"] = str(hashseed)  # str / set iteration order of the child: part of the schedule
     burners = []
     if loaded:
         burners = [subprocess.Popen([sys.executable, "-c", "while True: pass"]) for _ in range(16)]
@@ -301,6 +302,22 @@ def schedules(spec, rec):
                 else:
                     rec.violation(f"schedule-dependent-objective:{kind}", cfg, f"{kind}: penalty sequence differs from the 1-thread run (|f| {a['norm']!r} vs {b['norm']!r}, evaluations {a['n_eval']} vs {b['n_eval']})")
         rec.case(("schedule", threads, layer, chunk, loaded, dseed), out["threads"] >= 2, sample=cfg if threads == 4 and not loaded else None, features=["schedule"])
+    # fresh processes with different string-hash seeds (set / dict-of-set iteration order): a scheme with several dataset
+    # groups must give the same penalty sequence, parameters and result order
+    ref = None
+    for hs in (0, 1, 2, 7, 1234, "random"):
+        out = run_child(1, "workqueue", 0, dseed, False, kinds=["multi_group"], hashseed=hs)
+        if "error" in out:
+            rec.note("hash-seed child failed: " + out["error"][-300:])
+            continue
+        rec.count("hash_seed_children")
+        r = out["results"]["multi_group"]
+        if ref is None:
+            ref = r
+        elif r["hash"] != ref["hash"]:
+            rec.violation("hash-seed-dependent-objective:multi_group", {"PYTHONHASHSEED": hs, "dseed": dseed},
+                          f"four dataset groups: penalty sequence / parameters / result order differ from the PYTHONHASHSEED=0 process (|f| {ref['norm']!r} vs {r['norm']!r}, first entries {ref['first']} vs {r['first']})")
+            break
 
 
 # ---------------------------------------------------------------- 5: write-set monitor
